@@ -21,7 +21,7 @@ ASSUMPTIONS = ['TCP framing: u16 little-endian length of the CPX wire data, then
                'UART framing: 0xFF, length, wire data, XOR checksum; 0xFF 0x00 is the clear-to-send acknowledgement',
                'receiver queues exist before packets arrive (the router drops packets for functions nobody asked for yet)']
 REQUIRED = ['mon.codec', 'mon.bad_version', 'mon.short_streams_all_cuts', 'mon.long_streams', 'mon.router_packets',
-            'mon.tcp_crtp_up', 'mon.tcp_crtp_down', 'mon.serial_crtp_up', 'mon.serial_crtp_down', 'mon.crtp_packet_objects_sent_again', 'mon.uart_cpx_packets_of_every_length',
+            'mon.tcp_crtp_up', 'mon.tcp_crtp_down', 'mon.serial_crtp_up', 'mon.serial_crtp_down', 'mon.crtp_packet_objects_sent_again', 'mon.uart_cpx_packets_of_every_length', 'mon.frames_of_32k_and_more',
             'mon.router_streams_with_rejected_frames']
 EXHAUSTIVE = {'quick': False, 'thorough': False}
 EXHAUSTIVE_NOTE = 'cut patterns of short streams (<= 14 bytes) are enumerated completely'
@@ -224,6 +224,15 @@ def run_long(desc, ctx):
         ctx.count('mon.long_streams')
         ctx.nontrivial(('long', core.h64(s), mode, core.h64(cuts)))
         read_all(ctx, pk, s, cuts, 'long-' + mode)
+    # frames near the top of what the 16-bit length prefix can announce (payload = frame - 2 header bytes)
+    for _ in range(2):
+        sizes = [rnd.choice((32765, 32766, 32767, 40000, 65533, rnd.randint(1023, 65533))), rnd.randint(0, 20),
+                 rnd.choice((32766, 65533, rnd.randint(30000, 65533))), 0]
+        pk = [(rnd.choice(TARGETS), rnd.choice(TARGETS), rnd.choice(FUNCS), rnd.random() < 0.3, rnd.randbytes(n)) for n in sizes]
+        s = stream_of(pk)
+        cuts = sorted(rnd.sample(range(1, len(s)), 12)) if rnd.random() < 0.5 else list(range(4096, len(s), 4096))
+        ctx.count('mon.frames_of_32k_and_more')
+        read_all(ctx, pk, s, cuts, 'huge')
     ctx.sample({'long_streams': desc['n']})
 
 
